@@ -10,6 +10,9 @@ from mc.lib import crossings, events
 
 ID = 'C06'
 LEVEL = 'model_checking'
+# fewer non-trivial cases than this share of all cases means that the
+# exploration has become vacuous (reported as INTERNAL-ERROR, never as a pass)
+MIN_NONTRIVIAL_FRACTION = 0.15
 RULE = (
     'Event words (storm of k heavy steps lifting the level `up` lattice '
     'points + one light step; dry spell of d steps) generated from a planted '
@@ -18,7 +21,9 @@ RULE = (
     'to text files / loaded, and the whole real workflow load -> classify -> '
     'set-zeta-grid -> rise -> recession is run on every word of the stated '
     'length, with the complete record and with one water-level sample '
-    'missing inside each dry spell in turn (two gap-free stretches).  Oracle: average_recession_time(z) - T_truth(z) and '
+    'missing inside each dry spell in turn (two gap-free stretches); with '
+    'the light step after each storm placed exactly at both thresholds; and '
+    'as a state invariant after every sequence of up to 4 (5) workflow steps.  Oracle: average_recession_time(z) - T_truth(z) and '
     'average_rising_depth(z) - Sy z are constant over the curve; all '
     'aligned pieces coincide wherever they overlap; a curve must be '
     'assembled whenever two recorded pieces share a level.  Words are '
@@ -38,6 +43,10 @@ CONFIGS = [  # (shape, sy, dt, grid step)
     ('concave', 0.5, 1800, 1.0),
 ]
 A0 = 16
+# the light step after each storm sits EXACTLY at both thresholds (rain =
+# storm threshold, increment = jump threshold x step); dyadic lattice and
+# k in {1, 2} keep every sum exact
+AT_THRESHOLD = [('uniform', 2.0, 3600, 1.0), ('uniform', 0.5, 1800, 0.5)]
 
 
 def decoy():
@@ -74,8 +83,26 @@ def word_space(pairs, config, cli, gaps=False):
         + tuple(config)), size * variants, decode)
 
 
+def at_threshold_space(pairs, config):
+    size, decode_word = events.word_space_events(pairs, ks=(1, 2))
+
+    def decode(i):
+        return {'kind': 'db', 'config': list(config), 'at_threshold': True,
+                'word': decode_word(i)}
+    return Space('workflow/(S D)^%d/light step exactly at both thresholds/'
+                 '%s Sy=%g dt=%d step=%g' % ((pairs,) + tuple(config)),
+                 size, decode)
+
+
+def sequence_space(depth):
+    from mc.checks import c13
+    return c13.sequence_space(depth)
+
+
 def spaces(tier):
-    out = []
+    out = [sequence_space(4 if tier == 'quick' else 5)]
+    for config in AT_THRESHOLD:
+        out.append(at_threshold_space(2 if tier == 'quick' else 3, config))
     if tier == 'quick':
         for config in CONFIGS:
             out.append(word_space(1, config, True))
@@ -175,10 +202,37 @@ def check_curves(connection, ds, step):
     return viol, info
 
 
+def run_sequence(case):
+    """Recovery of the planted curves as an invariant of every state
+    reachable by workflow step sequences (the C20 dataset is truth
+    consistent: recession 1.5 mm per hourly step, specific yield 2)"""
+    from mc.checks import c13
+    blob = c13.state_after(case['steps'])
+    connection = sqlite3.connect(':memory:')
+    connection.deserialize(blob)
+    ds = {'dt': 3600, 'sy': 2.0,
+          'lattice': [80.0 - 1.5 * j for j in range(120)]}
+    try:
+        viol, info = check_curves(connection, ds, None)
+    finally:
+        connection.close()
+    viol = [(sig, 'after the steps %r: %s' % (case['steps'], msg))
+            for sig, msg in viol]
+    has = bool(info)
+    return Result(viol=viol, nontrivial=has, outcome=repr(sorted(
+        info.items())), states=len(case['steps']) + 1,
+        transitions=len(case['steps']),
+        counters={'sequences_ending_in_a_state_with_curves': int(has)})
+
+
 def run_case(case):
+    if case.get('kind') == 'sequence':
+        return run_sequence(case)
     shape, sy, dt, step = case['config']
     word = [tuple(ev) for ev in case['word']]
-    ds = events.build(word, shape, sy, dt, A0)
+    ds = events.build(word, shape, sy, dt, A0,
+                      eps_inc=events.THR_INC if case.get('at_threshold')
+                      else events.EPS_INC)
     if ds is None:
         return Result(nontrivial=False, outcome='outside-lattice',
                       counters={'words_outside_the_truth_family': 1})
